@@ -380,3 +380,35 @@ pub fn reseal_welcome(suite: u16, csp: &VSuite, welcome: &[u8], lookup: &dyn Fn(
     put_opaque(&mut out, &egi2);
     Some(ResealedWelcome { bytes: out, signer })
 }
+
+
+/// A member's public message with a changed confirmation tag and a membership tag recomputed over it (what the sender,
+/// or any member, can produce): everything up to the confirmation tag check passes.
+pub fn wrong_confirmation_tag(suite: u16, genuine: &[u8], membership_key: &[u8], group_context: &[u8]) -> Option<Vec<u8>> {
+    let s = rk::Suite::new(suite);
+    let pm = wire::parse_public_message(genuine)?;
+    pm.membership_tag?;
+    let tag = pm.confirmation_tag?;
+    let mut t2 = tag.to_vec();
+    let n = t2.len();
+    if n == 0 {
+        return None;
+    }
+    t2[n - 1] ^= 0x01;
+    let mut auth = vec![];
+    put_opaque(&mut auth, pm.signature);
+    put_opaque(&mut auth, &t2);
+    let mut out = vec![];
+    out.extend_from_slice(&pm.version.to_be_bytes());
+    out.extend_from_slice(&1u16.to_be_bytes());
+    out.extend_from_slice(pm.framed_content);
+    out.extend_from_slice(&auth);
+    // the rebuilt unmodified message must be the genuine one, otherwise the keys are of another epoch
+    let check = rk::membership_tag(&s, membership_key, pm.version, 1, pm.framed_content, group_context, pm.auth_data);
+    if pm.membership_tag != Some(&check[..]) {
+        return None;
+    }
+    let mtag = rk::membership_tag(&s, membership_key, pm.version, 1, pm.framed_content, group_context, &auth);
+    put_opaque(&mut out, &mtag);
+    Some(out)
+}
